@@ -1,10 +1,14 @@
 package main
 
+// Interpreter for go/ssa with symbolic scalars. Go run-time failures are assertions (checked with the solver
+// before the operation); every loop header carries an unwinding bound.
+
 import (
 	"fmt"
 	"go/constant"
 	"go/token"
 	"go/types"
+	"math"
 	"math/big"
 	"strings"
 
@@ -14,20 +18,42 @@ import (
 type unsupported string
 type pathEnd struct{ why string } // normal end of path exploration (assume false, violation stop, ...)
 
+type intrinsicFn func(e *Engine, f *frame, args []Value) Value
+
+type fnInfo struct {
+	name  string
+	intr  intrinsicFn
+	user  bool // function of the code under test (not harness, not stdlib)
+	short string
+}
+
 type Engine struct {
-	prog    *ssa.Program
-	pkg     *ssa.Package
-	b       *TermBank
-	x       *Explorer
-	globals map[*ssa.Global]*Slot
-	inInit  bool
-	initWrites int
-	steps   int
-	depth   int
-	funcsEntered map[string]int
-	loopBound int
+	prog       *ssa.Program
+	pkg        *ssa.Package
+	b          *TermBank
+	x          *Explorer
+	globals    map[*ssa.Global]*Slot
+	inInit     bool
+	undo       []undoRec
+	mapUndo    []mapUndoRec
+	steps      int
+	depth      int
+	loopBound  int
 	allocLimit int
+	maxSteps   int
+	pathSteps  int
 	curInitPkg *ssa.Package
+	finfo      map[*ssa.Function]*fnInfo
+	funcsSeen  map[*ssa.Function]int
+	stack      []*ssa.Function
+	consts     map[*ssa.Const]Value
+	errCounter int
+	cfg        map[string]int64 // per-harness parameters
+}
+
+type mapUndoRec struct {
+	m    *MapObj
+	ents []MapEntry
 }
 
 type frame struct {
@@ -37,17 +63,80 @@ type frame struct {
 	loops  map[*ssa.BasicBlock]int
 }
 
+func (e *Engine) beginPath() {
+	e.depth = 0
+	e.stack = e.stack[:0]
+	e.pathSteps = 0
+	e.errCounter = 0
+}
+
+func (e *Engine) endPath() {
+	for i := len(e.undo) - 1; i >= 0; i-- {
+		u := e.undo[i]
+		u.s.val, u.s.ext = u.val, u.ext
+	}
+	e.undo = e.undo[:0]
+	for i := len(e.mapUndo) - 1; i >= 0; i-- {
+		e.mapUndo[i].m.ents = e.mapUndo[i].ents
+	}
+	e.mapUndo = e.mapUndo[:0]
+}
+
+const repoMod = "github.com/amzn/ion-go/"
+
+func (e *Engine) info(fn *ssa.Function) *fnInfo {
+	if fi, ok := e.finfo[fn]; ok {
+		return fi
+	}
+	fi := &fnInfo{name: fn.String()}
+	fi.intr = intrinsics[fi.name]
+	if fn.Pkg != nil && strings.HasPrefix(fn.Pkg.Pkg.Path(), repoMod) {
+		p := e.prog.Fset.Position(fn.Pos())
+		if !strings.Contains(p.Filename, "zz_verif_") {
+			fi.user = true
+		}
+	}
+	fi.short = strings.TrimPrefix(fi.name, repoMod)
+	e.finfo[fn] = fi
+	return fi
+}
+
+// userFunc names the innermost active function of the code under test.
+func (e *Engine) userFunc() string {
+	for i := len(e.stack) - 1; i >= 0; i-- {
+		fi := e.info(e.stack[i])
+		if fi.user {
+			return fi.short
+		}
+	}
+	if len(e.stack) > 0 {
+		return e.info(e.stack[len(e.stack)-1]).short
+	}
+	return "?"
+}
+
 func (e *Engine) global(g *ssa.Global) *Slot {
 	s, ok := e.globals[g]
 	if !ok {
+		was := e.inInit
+		e.inInit = true
 		s = e.newSlot(g.Type().(*types.Pointer).Elem())
-		s.init = true
+		e.inInit = was
 		e.globals[g] = s
 	}
 	return s
 }
 
 func (e *Engine) constVal(c *ssa.Const) Value {
+	if v, ok := e.consts[c]; ok {
+		return v
+	}
+	v := e.constVal0(c)
+	e.consts[c] = v
+	return v
+}
+
+func (e *Engine) constVal0(c *ssa.Const) Value {
 	t := c.Type()
 	if c.Value == nil {
 		return e.zero(t)
@@ -61,10 +150,13 @@ func (e *Engine) constVal(c *ssa.Const) Value {
 			v, _ := new(big.Int).SetString(constant.ToInt(c.Value).ExactString(), 10)
 			return e.b.BV(v, intWidth(u))
 		case u.Info()&types.IsString != 0:
-			s := constant.StringVal(c.Value)
-			return e.strConst(s)
+			return e.strConst(constant.StringVal(c.Value))
 		case u.Info()&types.IsFloat != 0:
-			return &Opaque{"float const"}
+			fv, _ := constant.Float64Val(c.Value)
+			if floatWidth(u) == 32 {
+				return e.b.BVu(uint64(math.Float32bits(float32(fv))), 32)
+			}
+			return e.b.BVu(math.Float64bits(fv), 64)
 		}
 	}
 	panic(unsupported(fmt.Sprintf("const %v of type %v", c, t)))
@@ -104,32 +196,34 @@ func (e *Engine) term(v Value) *Term {
 	return t
 }
 
-// concrete int from a term, forking if symbolic (concretisation up to limit)
-func (e *Engine) concInt(t *Term, signedT bool, what string, limit int) int {
+// concrete int from a term, forking if symbolic (concretisation within [lo,hi])
+func (e *Engine) concInt(t *Term, signedT bool, what string, lo, hi int64, over func(*Term)) int {
 	if t.IsConst() {
 		if signedT {
 			return int(t.ConstS())
 		}
 		return int(t.ConstU())
 	}
-	return e.x.concretize(t, signedT, what, limit)
+	return int(e.x.concretize(t, signedT, what, lo, hi, over))
 }
 
 func (e *Engine) call(fn *ssa.Function, args []Value, free []Value) Value {
-	name := fn.String()
-	if h, ok := intrinsics[name]; ok {
-		return h(e, args)
+	fi := e.info(fn)
+	if fi.intr != nil {
+		return fi.intr(e, nil, args)
 	}
 	if fn.Blocks == nil {
-		panic(unsupported("external function " + name))
+		panic(unsupported("external function " + fi.name))
 	}
-	e.funcsEntered[name]++
+	if fi.user && !e.inInit {
+		e.funcsSeen[fn]++
+	}
 	e.depth++
-	if e.depth > 200 {
+	if e.depth > 400 {
 		panic(unsupported("call depth"))
 	}
-	defer func() { e.depth-- }()
-	f := &frame{fn: fn, env: map[ssa.Value]Value{}, loops: map[*ssa.BasicBlock]int{}}
+	e.stack = append(e.stack, fn)
+	f := &frame{fn: fn, env: make(map[ssa.Value]Value, 16)}
 	for i, p := range fn.Params {
 		f.env[p] = args[i]
 	}
@@ -139,28 +233,60 @@ func (e *Engine) call(fn *ssa.Function, args []Value, free []Value) Value {
 	var prev *ssa.BasicBlock
 	blk := fn.Blocks[0]
 	for {
-		f.loops[blk]++
-		if f.loops[blk] > e.loopBound {
-			e.x.unwindFail(fn, blk)
+		if len(blk.Preds) > 1 {
+			if f.loops == nil {
+				f.loops = map[*ssa.BasicBlock]int{}
+			}
+			f.loops[blk]++
+			if f.loops[blk] > e.loopBound {
+				e.x.unwindFail(fn, blk)
+			}
 		}
 		var next *ssa.BasicBlock
+		// phis are evaluated in parallel
+		nphi := 0
 		for _, ins := range blk.Instrs {
-			e.steps++
-			switch in := ins.(type) {
-			case *ssa.Phi:
-				for i, p := range blk.Preds {
-					if p == prev {
-						f.env[in] = e.get(f, in.Edges[i])
-						break
-					}
+			if _, ok := ins.(*ssa.Phi); !ok {
+				break
+			}
+			nphi++
+		}
+		if nphi > 0 {
+			pi := -1
+			for i, p := range blk.Preds {
+				if p == prev {
+					pi = i
+					break
 				}
+			}
+			if nphi == 1 {
+				in := blk.Instrs[0].(*ssa.Phi)
+				f.env[in] = e.get(f, in.Edges[pi])
+			} else {
+				vals := make([]Value, nphi)
+				for k := 0; k < nphi; k++ {
+					vals[k] = e.get(f, blk.Instrs[k].(*ssa.Phi).Edges[pi])
+				}
+				for k := 0; k < nphi; k++ {
+					f.env[blk.Instrs[k].(*ssa.Phi)] = vals[k]
+				}
+			}
+		}
+		for _, ins := range blk.Instrs[nphi:] {
+			e.steps++
+			e.pathSteps++
+			if e.maxSteps > 0 && e.pathSteps > e.maxSteps {
+				e.x.report("unwind", "step budget", e.userFunc(), "path step budget exceeded", e.b.tt)
+				panic(pathEnd{"step budget"})
+			}
+			switch in := ins.(type) {
 			case *ssa.If:
 				c := e.term(e.get(f, in.Cond))
 				var taken bool
 				if c.IsConst() {
 					taken = c.ConstBool()
 				} else {
-					taken = e.x.branch(c, fn, ins)
+					taken = e.x.branch(c)
 				}
 				if taken {
 					next = blk.Succs[0]
@@ -173,6 +299,8 @@ func (e *Engine) call(fn *ssa.Function, args []Value, free []Value) Value {
 				for i := len(f.defers) - 1; i >= 0; i-- {
 					f.defers[i]()
 				}
+				e.depth--
+				e.stack = e.stack[:len(e.stack)-1]
 				switch len(in.Results) {
 				case 0:
 					return nil
@@ -186,7 +314,7 @@ func (e *Engine) call(fn *ssa.Function, args []Value, free []Value) Value {
 					return tv
 				}
 			case *ssa.Panic:
-				e.x.goPanic(fn, ins, "explicit panic")
+				e.x.goPanic(fn, ins, "explicit panic: "+e.panicText(e.get(f, in.X)))
 			case *ssa.RunDefers:
 				for i := len(f.defers) - 1; i >= 0; i-- {
 					f.defers[i]()
@@ -198,6 +326,28 @@ func (e *Engine) call(fn *ssa.Function, args []Value, free []Value) Value {
 		}
 		prev, blk = blk, next
 	}
+}
+
+func (e *Engine) panicText(v Value) string {
+	if i, ok := v.(*Iface); ok && i.t != nil {
+		if s, ok := i.v.(*StrV); ok {
+			return e.concStr(s)
+		}
+		return i.t.String()
+	}
+	return ""
+}
+
+func (e *Engine) concStr(s *StrV) string {
+	var sb strings.Builder
+	for _, c := range s.b {
+		if c.IsConst() {
+			sb.WriteByte(byte(c.ConstU()))
+		} else {
+			sb.WriteByte('?')
+		}
+	}
+	return sb.String()
 }
 
 func (e *Engine) exec(f *frame, ins ssa.Instruction) {
@@ -216,8 +366,8 @@ func (e *Engine) exec(f *frame, ins ssa.Instruction) {
 		if sp, ok := e.get(f, in.Addr).(*SymPtr); ok {
 			v := e.term(e.get(f, in.Val))
 			for i := 0; i < sp.n; i++ {
-				k := sp.base.kids[sp.off+i]
-				k.val = e.b.Ite(e.b.Eq(sp.idx, e.b.BVu(uint64(i), sp.idx.sort.W)), v, e.term(k.val))
+				k := sp.base.kid(sp.off + i)
+				e.store(k, e.b.Ite(e.b.Eq(sp.idx, e.b.BVu(uint64(i), sp.idx.sort.W)), v, e.term(k.val)))
 			}
 			return
 		}
@@ -241,10 +391,22 @@ func (e *Engine) exec(f *frame, ins ssa.Instruction) {
 	case *ssa.Slice:
 		f.env[in] = e.slice(f, in)
 	case *ssa.MakeSlice:
-		ln := e.concInt(e.term(e.get(f, in.Len)), true, "make len", e.allocLimit)
-		cp := e.concInt(e.term(e.get(f, in.Cap)), true, "make cap", e.allocLimit)
+		lt := e.term(e.get(f, in.Len))
+		ct := e.term(e.get(f, in.Cap))
+		over := func(c *Term) {
+			e.x.report("alloc", pos(e.prog, f.fn, ins), e.userFunc(), fmt.Sprintf("make size can exceed limit %d (or be negative)", e.allocLimit), c)
+		}
+		ln := e.concInt(lt, true, "make len", 0, int64(e.allocLimit), over)
+		cp := ln
+		if ct != lt {
+			cp = e.concInt(ct, true, "make cap", 0, int64(e.allocLimit), over)
+		}
 		if ln < 0 || cp < ln {
 			e.x.goPanic(f.fn, ins, "makeslice: len out of range")
+		}
+		if cp > (1 << 26) {
+			e.x.report("alloc", pos(e.prog, f.fn, ins), e.userFunc(), fmt.Sprintf("concrete make size %d", cp), e.b.tt)
+			panic(pathEnd{"huge alloc"})
 		}
 		el := in.Type().Underlying().(*types.Slice).Elem()
 		f.env[in] = &SliceV{arr: e.newArraySlot(el, cp), len: ln, cap: cp}
@@ -255,6 +417,10 @@ func (e *Engine) exec(f *frame, ins ssa.Instruction) {
 	case *ssa.Defer:
 		c := in.Call
 		args := e.callArgs(f, &c)
+		if bi, ok := c.Value.(*ssa.Builtin); ok {
+			_ = bi
+			panic(unsupported("deferred builtin"))
+		}
 		fv := e.calleeOf(f, &c, &args)
 		f.defers = append(f.defers, func() { e.invoke(fv, args) })
 	case *ssa.MakeInterface:
@@ -277,13 +443,7 @@ func (e *Engine) exec(f *frame, ins ssa.Instruction) {
 			e.x.goPanic(f.fn, ins, "assignment to entry in nil map")
 		}
 		k, v := e.get(f, in.Key), e.get(f, in.Value)
-		for i := range m.m.ents {
-			if e.concEq(m.m.ents[i].k, k) {
-				m.m.ents[i].v = v
-				return
-			}
-		}
-		m.m.ents = append(m.m.ents, MapEntry{k, v})
+		e.mapSet(m.m, k, v)
 	case *ssa.Lookup:
 		f.env[in] = e.lookup(f, in)
 	case *ssa.Range:
@@ -296,6 +456,8 @@ func (e *Engine) exec(f *frame, ins ssa.Instruction) {
 			f.env[in] = &IterV{m: &MapObj{ents: append([]MapEntry{}, mo.ents...)}}
 		case *StrV:
 			f.env[in] = &IterV{str: x}
+		default:
+			panic(unsupported("range"))
 		}
 	case *ssa.Next:
 		it := e.get(f, in.Iter).(*IterV)
@@ -303,12 +465,18 @@ func (e *Engine) exec(f *frame, ins ssa.Instruction) {
 			if it.pos < len(it.m.ents) {
 				en := it.m.ents[it.pos]
 				it.pos++
-				f.env[in] = Tuple{e.b.Bool(true), en.k, en.v}
+				f.env[in] = Tuple{e.b.tt, en.k, en.v}
 			} else {
-				f.env[in] = Tuple{e.b.Bool(false), nil, nil}
+				f.env[in] = Tuple{e.b.ff, nil, nil}
 			}
 		} else {
-			panic(unsupported("range over string"))
+			if it.pos >= len(it.str.b) {
+				f.env[in] = Tuple{e.b.ff, e.b.BVu(0, 64), e.b.BVu(0, 32)}
+				return
+			}
+			r, sz := e.decodeRune(&StrV{b: it.str.b[it.pos:]})
+			f.env[in] = Tuple{e.b.tt, e.b.BVi(int64(it.pos), 64), r}
+			it.pos += sz
 		}
 	case *ssa.DebugRef:
 	default:
@@ -316,31 +484,94 @@ func (e *Engine) exec(f *frame, ins ssa.Instruction) {
 	}
 }
 
-// concrete equality for map keys (strings with const bytes, const ints)
-func (e *Engine) concEq(a, b Value) bool {
+// decodeRune runs the real unicode/utf8.DecodeRuneInString on s (forks on symbolic bytes).
+func (e *Engine) decodeRune(s *StrV) (*Term, int) {
+	if len(s.b) > 0 && s.b[0].IsConst() && s.b[0].ConstU() < 0x80 {
+		return e.b.BVu(s.b[0].ConstU(), 32), 1
+	}
+	fn := e.stdFunc("unicode/utf8", "DecodeRuneInString")
+	tv := e.call(fn, []Value{s}, nil).(Tuple)
+	sz := e.concInt(e.term(tv[1]), true, "rune size", 0, 4, nil)
+	return e.term(tv[0]), sz
+}
+
+func (e *Engine) stdFunc(pkg, name string) *ssa.Function {
+	for _, p := range e.prog.AllPackages() {
+		if p.Pkg.Path() == pkg {
+			if fn := p.Func(name); fn != nil {
+				return fn
+			}
+		}
+	}
+	panic(unsupported("missing " + pkg + "." + name))
+}
+
+// keyEq decides equality of map keys, forking when it is symbolic.
+func (e *Engine) keyEq(a, b Value) bool {
+	var c *Term
 	switch x := a.(type) {
 	case *Term:
-		y := b.(*Term)
-		if !x.IsConst() || !y.IsConst() {
-			panic(unsupported("symbolic map key"))
-		}
-		return x == y
+		c = e.b.Eq(x, b.(*Term))
 	case *StrV:
 		y := b.(*StrV)
 		if len(x.b) != len(y.b) {
 			return false
 		}
+		c = e.b.tt
 		for i := range x.b {
-			if !x.b[i].IsConst() || !y.b[i].IsConst() {
-				panic(unsupported("symbolic map key (string)"))
-			}
-			if x.b[i] != y.b[i] {
+			c = e.b.And(c, e.b.Eq(x.b[i], y.b[i]))
+		}
+	case *Iface:
+		y := b.(*Iface)
+		if x.t == nil || y.t == nil {
+			return x.t == nil && y.t == nil
+		}
+		if !types.Identical(x.t, y.t) {
+			return false
+		}
+		return e.keyEq(x.v, y.v)
+	case *Ptr:
+		return x.s == b.(*Ptr).s
+	case *StructV:
+		y := b.(*StructV)
+		for i := range x.f {
+			if !e.keyEq(x.f[i], y.f[i]) {
 				return false
 			}
 		}
 		return true
+	default:
+		panic(unsupported(fmt.Sprintf("map key %T", a)))
 	}
-	panic(unsupported(fmt.Sprintf("map key %T", a)))
+	if c.IsConst() {
+		return c.ConstBool()
+	}
+	return e.x.branch(c)
+}
+
+func (e *Engine) mapSet(m *MapObj, k, v Value) {
+	if !e.inInit {
+		e.mapUndo = append(e.mapUndo, mapUndoRec{m, append([]MapEntry(nil), m.ents...)})
+	}
+	for i := range m.ents {
+		if e.keyEq(m.ents[i].k, k) {
+			m.ents[i].v = v
+			return
+		}
+	}
+	m.ents = append(m.ents, MapEntry{k, v})
+}
+
+func (e *Engine) mapDelete(m *MapObj, k Value) {
+	if !e.inInit {
+		e.mapUndo = append(e.mapUndo, mapUndoRec{m, append([]MapEntry(nil), m.ents...)})
+	}
+	for i := range m.ents {
+		if e.keyEq(m.ents[i].k, k) {
+			m.ents = append(append([]MapEntry(nil), m.ents[:i]...), m.ents[i+1:]...)
+			return
+		}
+	}
 }
 
 func (e *Engine) lookup(f *frame, in *ssa.Lookup) Value {
@@ -354,7 +585,7 @@ func (e *Engine) lookup(f *frame, in *ssa.Lookup) Value {
 		found := false
 		if x.m != nil {
 			for _, en := range x.m.ents {
-				if e.concEq(en.k, k) {
+				if e.keyEq(en.k, k) {
 					val, found = en.v, true
 					break
 				}
@@ -389,12 +620,16 @@ func (e *Engine) indexSeq(f *frame, ins ssa.Instruction, n int, at func(int) Val
 	inb := e.b.Bin(OBvULT, idx, e.b.BVu(uint64(n), w)) // negative signed values are huge unsigned
 	e.x.checkPanic(e.b.Not(inb), f.fn, ins, "index out of range (symbolic)")
 	if n > 300 {
-		i := e.x.concretize(idx, sg, "index", n)
-		return at(i)
+		i := e.x.concretize(idx, sg, "index", 0, int64(n-1), nil)
+		return at(int(i))
 	}
 	var r *Term
 	for i := n - 1; i >= 0; i-- {
-		v := e.term(at(i))
+		v, ok := at(i).(*Term)
+		if !ok {
+			j := e.x.concretize(idx, sg, "index", 0, int64(n-1), nil)
+			return at(int(j))
+		}
 		if r == nil {
 			r = v
 		} else {
@@ -412,14 +647,19 @@ func (e *Engine) indexAddr(f *frame, in *ssa.IndexAddr) Value {
 	sg := isSigned(in.Index.Type())
 	var base *Slot
 	off, n := 0, 0
+	var elem types.Type
 	switch x := e.get(f, in.X).(type) {
 	case *Ptr:
 		if x.s == nil {
 			e.x.goPanic(f.fn, in, "nil dereference (indexaddr)")
 		}
 		base, n = x.s, len(x.s.kids)
+		elem = x.s.typ.Underlying().(*types.Array).Elem()
 	case *SliceV:
 		base, off, n = x.arr, x.off, x.len
+		if base != nil {
+			elem = base.typ.Underlying().(*types.Array).Elem()
+		}
 	}
 	var i int
 	if idx.IsConst() {
@@ -435,12 +675,12 @@ func (e *Engine) indexAddr(f *frame, in *ssa.IndexAddr) Value {
 		w := idx.sort.W
 		inb := e.b.Bin(OBvULT, idx, e.b.BVu(uint64(n), w))
 		e.x.checkPanic(e.b.Not(inb), f.fn, in, "index out of range (symbolic)")
-		if n <= 64 && n > 0 {
+		if _, scalar := elem.Underlying().(*types.Basic); scalar && n <= 64 && n > 0 {
 			return &SymPtr{base: base, off: off, n: n, idx: idx}
 		}
-		i = e.x.concretize(idx, sg, "indexaddr", n)
+		i = int(e.x.concretize(idx, sg, "indexaddr", 0, int64(n-1), nil))
 	}
-	return &Ptr{base.kids[off+i]}
+	return &Ptr{base.kid(off + i)}
 }
 
 func (e *Engine) index(f *frame, in *ssa.Index) Value {
@@ -459,7 +699,7 @@ func (e *Engine) slice(f *frame, in *ssa.Slice) Value {
 		if v == nil {
 			return def
 		}
-		return e.concInt(e.term(e.get(f, v)), true, "slice bound", 1<<20)
+		return e.concInt(e.term(e.get(f, v)), true, "slice bound", -1, 1<<20, nil)
 	}
 	switch x := e.get(f, in.X).(type) {
 	case *StrV:
@@ -497,9 +737,10 @@ func (e *Engine) typeAssert(f *frame, in *ssa.TypeAssert) Value {
 	x := e.get(f, in.X).(*Iface)
 	ok := false
 	var res Value
+	_, toIface := in.AssertedType.Underlying().(*types.Interface)
 	if x.t != nil {
-		if it, isI := in.AssertedType.Underlying().(*types.Interface); isI {
-			ok = types.Implements(x.t, it)
+		if toIface {
+			ok = types.Implements(x.t, in.AssertedType.Underlying().(*types.Interface))
 			res = x
 		} else {
 			ok = types.Identical(x.t, in.AssertedType)
@@ -508,8 +749,8 @@ func (e *Engine) typeAssert(f *frame, in *ssa.TypeAssert) Value {
 	}
 	if in.CommaOk {
 		if !ok {
-			if _, isI := in.AssertedType.Underlying().(*types.Interface); isI {
-				res = &Iface{}
+			if toIface {
+				res = nilIface
 			} else {
 				res = e.zero(in.AssertedType)
 			}
@@ -523,7 +764,7 @@ func (e *Engine) typeAssert(f *frame, in *ssa.TypeAssert) Value {
 }
 
 func (e *Engine) callArgs(f *frame, c *ssa.CallCommon) []Value {
-	var args []Value
+	args := make([]Value, 0, len(c.Args)+1)
 	for _, a := range c.Args {
 		args = append(args, e.get(f, a))
 	}
@@ -548,7 +789,7 @@ func (e *Engine) calleeOf(f *frame, c *ssa.CallCommon, args *[]Value) *FuncV {
 
 func (e *Engine) invoke(fv *FuncV, args []Value) Value {
 	if fv.bi != nil {
-		panic(unsupported("deferred builtin"))
+		panic(unsupported("builtin as value"))
 	}
 	if fv.fn == nil {
 		e.x.goPanic(nil, nil, "call of nil func")
@@ -562,7 +803,57 @@ func (e *Engine) doCall(f *frame, ins ssa.Instruction, c *ssa.CallCommon) Value 
 		return e.builtin(f, ins, bi, c, args)
 	}
 	fv := e.calleeOf(f, c, &args)
+	if fv.fn != nil {
+		if fi := e.info(fv.fn); fi.intr != nil {
+			return fi.intr(e, f, args)
+		}
+	}
 	return e.invoke(fv, args)
+}
+
+func (e *Engine) sliceElems(v Value) []Value {
+	switch t := v.(type) {
+	case *SliceV:
+		out := make([]Value, t.len)
+		for i := 0; i < t.len; i++ {
+			out[i] = e.load(t.arr.kid(t.off + i))
+		}
+		return out
+	case *StrV:
+		out := make([]Value, len(t.b))
+		for i, b := range t.b {
+			out[i] = b
+		}
+		return out
+	}
+	panic(unsupported(fmt.Sprintf("slice elems of %T", v)))
+}
+
+func (e *Engine) mkSlice(elem types.Type, vals []Value, cp int) *SliceV {
+	if cp < len(vals) {
+		cp = len(vals)
+	}
+	arr := e.newArraySlot(elem, cp)
+	for i, v := range vals {
+		e.store(arr.kid(i), v)
+	}
+	return &SliceV{arr: arr, len: len(vals), cap: cp}
+}
+
+func (e *Engine) byteSlice(ts []*Term) *SliceV {
+	arr := e.newArraySlot(types.Typ[types.Uint8], len(ts))
+	for i, t := range ts {
+		arr.kid(i).val = t
+	}
+	return &SliceV{arr: arr, len: len(ts), cap: len(ts)}
+}
+
+func (e *Engine) sliceBytes(s *SliceV) []*Term {
+	out := make([]*Term, s.len)
+	for i := 0; i < s.len; i++ {
+		out[i] = e.term(s.arr.kid(s.off + i).val)
+	}
+	return out
 }
 
 func (e *Engine) builtin(f *frame, ins ssa.Instruction, bi *ssa.Builtin, c *ssa.CallCommon, args []Value) Value {
@@ -587,27 +878,19 @@ func (e *Engine) builtin(f *frame, ins ssa.Instruction, bi *ssa.Builtin, c *ssa.
 		switch x := args[0].(type) {
 		case *SliceV:
 			return e.b.BVi(int64(x.cap), 64)
+		case *Ptr:
+			return e.b.BVi(int64(len(x.s.kids)), 64)
 		}
 	case "append":
 		s := args[0].(*SliceV)
-		var add []Value
-		switch t := args[1].(type) {
-		case *SliceV:
-			for i := 0; i < t.len; i++ {
-				add = append(add, e.load(t.arr.kids[t.off+i]))
-			}
-		case *StrV:
-			for _, b := range t.b {
-				add = append(add, b)
-			}
-		}
+		add := e.sliceElems(args[1])
 		if len(add) == 0 {
 			return s
 		}
 		el := c.Args[0].Type().Underlying().(*types.Slice).Elem()
 		if s.len+len(add) <= s.cap {
 			for i, v := range add {
-				e.store(s.arr.kids[s.off+s.len+i], v)
+				e.store(s.arr.kid(s.off+s.len+i), v)
 			}
 			return &SliceV{arr: s.arr, off: s.off, len: s.len + len(add), cap: s.cap}
 		}
@@ -617,39 +900,42 @@ func (e *Engine) builtin(f *frame, ins ssa.Instruction, bi *ssa.Builtin, c *ssa.
 		}
 		na := e.newArraySlot(el, ncap)
 		for i := 0; i < s.len; i++ {
-			e.store(na.kids[i], e.load(s.arr.kids[s.off+i]))
+			e.store(na.kid(i), e.load(s.arr.kid(s.off+i)))
 		}
 		for i, v := range add {
-			e.store(na.kids[s.len+i], v)
+			e.store(na.kid(s.len+i), v)
 		}
 		return &SliceV{arr: na, len: s.len + len(add), cap: ncap}
 	case "String": // unsafe.String(ptr, len)
-		n := e.concInt(e.term(args[1]), true, "unsafe.String len", 1<<16)
-		r := &StrV{}
+		n := e.concInt(e.term(args[1]), true, "unsafe.String len", 0, 1<<16, nil)
 		if n == 0 {
-			return r
+			return emptyStr
 		}
+		r := &StrV{}
 		p := args[0].(*Ptr)
 		for i := 0; i < n; i++ {
-			r.b = append(r.b, e.term(p.s.parent.kids[p.s.pidx+i].val))
+			r.b = append(r.b, e.term(p.s.parent.kid(p.s.pidx+i).val))
 		}
 		return r
 	case "SliceData":
 		sl := args[0].(*SliceV)
 		if sl.arr == nil || sl.cap == 0 {
-			return &Ptr{}
+			return nilPtr
 		}
-		return &Ptr{sl.arr.kids[sl.off]}
+		return &Ptr{sl.arr.kid(sl.off)}
 	case "StringData":
 		st := args[0].(*StrV)
 		if len(st.b) == 0 {
-			return &Ptr{}
+			return nilPtr
 		}
-		arr := e.newArraySlot(types.Typ[types.Uint8], len(st.b))
-		for i, c := range st.b {
-			arr.kids[i].val = c
+		return &Ptr{e.byteSlice(st.b).arr.kid(0)}
+	case "Slice": // unsafe.Slice(ptr, len)
+		n := e.concInt(e.term(args[1]), true, "unsafe.Slice len", 0, 1<<16, nil)
+		p := args[0].(*Ptr)
+		if p.s == nil || n == 0 {
+			return &SliceV{}
 		}
-		return &Ptr{arr.kids[0]}
+		return &SliceV{arr: p.s.parent, off: p.s.pidx, len: n, cap: n}
 	case "min", "max":
 		r := e.term(args[0])
 		sg := isSigned(c.Args[0].Type())
@@ -668,25 +954,32 @@ func (e *Engine) builtin(f *frame, ins ssa.Instruction, bi *ssa.Builtin, c *ssa.
 		return r
 	case "copy":
 		d := args[0].(*SliceV)
-		var src []Value
-		switch t := args[1].(type) {
-		case *SliceV:
-			for i := 0; i < t.len; i++ {
-				src = append(src, e.load(t.arr.kids[t.off+i]))
-			}
-		case *StrV:
-			for _, b := range t.b {
-				src = append(src, b)
-			}
-		}
+		src := e.sliceElems(args[1])
 		n := len(src)
 		if d.len < n {
 			n = d.len
 		}
 		for i := 0; i < n; i++ {
-			e.store(d.arr.kids[d.off+i], src[i])
+			e.store(d.arr.kid(d.off+i), src[i])
 		}
 		return e.b.BVi(int64(n), 64)
+	case "delete":
+		m := args[0].(*MapV)
+		if m.m != nil {
+			e.mapDelete(m.m, args[1])
+		}
+		return nil
+	case "print", "println":
+		return nil
+	case "clear":
+		switch x := args[0].(type) {
+		case *MapV:
+			if x.m != nil {
+				e.mapUndo = append(e.mapUndo, mapUndoRec{x.m, x.m.ents})
+				x.m.ents = nil
+			}
+			return nil
+		}
 	}
 	panic(unsupported("builtin " + bi.Name()))
 }
@@ -698,7 +991,7 @@ func (e *Engine) unop(f *frame, in *ssa.UnOp) Value {
 		if sp, ok := x.(*SymPtr); ok {
 			var r *Term
 			for i := sp.n - 1; i >= 0; i-- {
-				v := e.term(e.load(sp.base.kids[sp.off+i]))
+				v := e.term(e.load(sp.base.kid(sp.off + i)))
 				if r == nil {
 					r = v
 				} else {
@@ -715,6 +1008,11 @@ func (e *Engine) unop(f *frame, in *ssa.UnOp) Value {
 	case token.NOT:
 		return e.b.Not(e.term(x))
 	case token.SUB:
+		if isFloat(in.X.Type()) {
+			t := e.term(x)
+			w := t.sort.W
+			return e.b.Bin(OBvXor, t, e.b.BVu(uint64(1)<<uint(w-1), w))
+		}
 		return e.b.Neg(e.term(x))
 	case token.XOR:
 		return e.b.BvNot(e.term(x))
@@ -727,48 +1025,155 @@ func (e *Engine) convert(f *frame, in *ssa.Convert) Value {
 	from, to := in.X.Type().Underlying(), in.Type().Underlying()
 	if tb, ok := to.(*types.Basic); ok {
 		if fb, ok := from.(*types.Basic); ok {
-			if tb.Info()&types.IsInteger != 0 && fb.Info()&types.IsInteger != 0 {
+			ti, fi := tb.Info(), fb.Info()
+			switch {
+			case ti&types.IsInteger != 0 && fi&types.IsInteger != 0:
 				t := e.term(x)
 				w := intWidth(tb)
 				if isSigned(from) {
 					return e.b.SExt(t, w)
 				}
 				return e.b.ZExt(t, w)
-			}
-			if tb.Info()&types.IsString != 0 && fb.Info()&types.IsInteger != 0 {
+			case ti&types.IsFloat != 0 && fi&types.IsFloat != 0:
+				return e.b.FpCvt(e.term(x), floatWidth(tb))
+			case ti&types.IsFloat != 0 && fi&types.IsInteger != 0:
 				t := e.term(x)
-				if t.IsConst() && t.ConstU() < 0x80 {
-					return &StrV{b: []*Term{e.b.BVu(t.ConstU(), 8)}}
+				if t.IsConst() {
+					var fv float64
+					if isSigned(from) {
+						fv = float64(t.ConstS())
+					} else {
+						fv = float64(t.ConstU())
+					}
+					if floatWidth(tb) == 32 {
+						return e.b.BVu(uint64(math.Float32bits(float32(fv))), 32)
+					}
+					return e.b.BVu(math.Float64bits(fv), 64)
 				}
-				panic(unsupported("string(rune) symbolic"))
-			}
-			if tb.Kind() == types.UnsafePointer || fb.Kind() == types.UnsafePointer {
+				panic(unsupported("symbolic int->float conversion"))
+			case ti&types.IsInteger != 0 && fi&types.IsFloat != 0:
+				t := e.term(x)
+				if t.IsConst() {
+					fv := fpVal(t.u, t.sort.W)
+					if isSigned(to) {
+						return e.b.BVi(int64(fv), intWidth(tb))
+					}
+					return e.b.BVu(uint64(fv), intWidth(tb))
+				}
+				panic(unsupported("symbolic float->int conversion"))
+			case ti&types.IsString != 0 && fi&types.IsInteger != 0:
+				return e.runeToString(e.term(x), isSigned(from))
+			case tb.Kind() == types.UnsafePointer || fb.Kind() == types.UnsafePointer:
 				return x
 			}
 		}
 		if tb.Info()&types.IsString != 0 {
-			if s, ok := x.(*SliceV); ok { // string([]byte)
-				r := &StrV{}
-				for i := 0; i < s.len; i++ {
-					r.b = append(r.b, e.term(e.load(s.arr.kids[s.off+i])))
+			if s, ok := x.(*SliceV); ok {
+				if el, ok := from.(*types.Slice); ok {
+					if eb, ok := el.Elem().Underlying().(*types.Basic); ok && eb.Kind() == types.Int32 { // string([]rune)
+						r := &StrV{}
+						for i := 0; i < s.len; i++ {
+							r.b = append(r.b, e.runeToString(e.term(s.arr.kid(s.off+i).val), true).b...)
+						}
+						return r
+					}
 				}
-				return r
+				if s.len == 0 {
+					return emptyStr
+				}
+				return &StrV{b: e.sliceBytes(s)} // string([]byte)
 			}
+		}
+		if tb.Kind() == types.UnsafePointer {
+			return x
 		}
 	}
 	if ts, ok := to.(*types.Slice); ok {
-		if s, ok := x.(*StrV); ok { // []byte(string)
-			arr := e.newArraySlot(ts.Elem(), len(s.b))
-			for i, b := range s.b {
-				arr.kids[i].val = b
+		if s, ok := x.(*StrV); ok {
+			if eb, ok := ts.Elem().Underlying().(*types.Basic); ok && eb.Kind() == types.Int32 { // []rune(string)
+				var rs []Value
+				for p := 0; p < len(s.b); {
+					r, sz := e.decodeRune(&StrV{b: s.b[p:]})
+					rs = append(rs, r)
+					p += sz
+				}
+				return e.mkSlice(ts.Elem(), rs, 0)
 			}
-			return &SliceV{arr: arr, len: len(s.b), cap: len(s.b)}
+			return e.byteSlice(s.b) // []byte(string)
 		}
 	}
 	if _, ok := to.(*types.Pointer); ok {
 		return x
 	}
 	panic(unsupported(fmt.Sprintf("convert %v -> %v", in.X.Type(), in.Type())))
+}
+
+// runeToString encodes a rune as UTF-8 (Go semantics: invalid runes become U+FFFD); forks on the length class.
+func (e *Engine) runeToString(t *Term, sg bool) *StrV {
+	b := e.b
+	r := t
+	if r.sort.W < 32 {
+		if sg {
+			r = b.SExt(r, 32)
+		} else {
+			r = b.ZExt(r, 32)
+		}
+	} else if r.sort.W > 32 {
+		// out of int32 range -> U+FFFD
+		fits := b.Eq(b.SExt(b.Extract(r, 31, 0), 64), r)
+		if !e.decide(fits) {
+			return e.strConst("�")
+		}
+		r = b.Extract(r, 31, 0)
+	}
+	c32 := func(v uint64) *Term { return b.BVu(v, 32) }
+	invalid := b.Or(b.Bin(OBvSLT, r, c32(0)), b.Or(b.Bin(OBvSLT, c32(0x10FFFF), r),
+		b.And(b.Bin(OBvSLE, c32(0xD800), r), b.Bin(OBvSLE, r, c32(0xDFFF)))))
+	if e.decide(invalid) {
+		return e.strConst("�")
+	}
+	ex := func(hi, lo int) *Term { return b.ZExt(b.Extract(r, hi, lo), 8) }
+	or8 := func(x *Term, v uint64) *Term { return b.Bin(OBvOr, x, b.BVu(v, 8)) }
+	switch {
+	case e.decide(b.Bin(OBvULT, r, c32(0x80))):
+		return &StrV{b: []*Term{b.Extract(r, 7, 0)}}
+	case e.decide(b.Bin(OBvULT, r, c32(0x800))):
+		return &StrV{b: []*Term{or8(ex(10, 6), 0xC0), or8(ex(5, 0), 0x80)}}
+	case e.decide(b.Bin(OBvULT, r, c32(0x10000))):
+		return &StrV{b: []*Term{or8(ex(15, 12), 0xE0), or8(ex(11, 6), 0x80), or8(ex(5, 0), 0x80)}}
+	default:
+		return &StrV{b: []*Term{or8(ex(20, 18), 0xF0), or8(ex(17, 12), 0x80), or8(ex(11, 6), 0x80), or8(ex(5, 0), 0x80)}}
+	}
+}
+
+// decide returns the truth of c on this path, forking when symbolic.
+func (e *Engine) decide(c *Term) bool {
+	if c.IsConst() {
+		return c.ConstBool()
+	}
+	return e.x.branch(c)
+}
+
+func (e *Engine) strLess(x, y *StrV, orEq bool) *Term {
+	b := e.b
+	// lexicographic, from the end
+	var r *Term
+	n := len(x.b)
+	if len(y.b) < n {
+		n = len(y.b)
+	}
+	// base: all common bytes equal -> compare lengths
+	if orEq {
+		r = b.Bool(len(x.b) <= len(y.b))
+	} else {
+		r = b.Bool(len(x.b) < len(y.b))
+	}
+	for i := n - 1; i >= 0; i-- {
+		lt := b.Bin(OBvULT, x.b[i], y.b[i])
+		eq := b.Eq(x.b[i], y.b[i])
+		r = b.Or(lt, b.And(eq, r))
+	}
+	return r
 }
 
 func (e *Engine) binop(f *frame, in *ssa.BinOp) Value {
@@ -790,11 +1195,45 @@ func (e *Engine) binop(f *frame, in *ssa.BinOp) Value {
 			}
 			panic(unsupported("bool binop " + in.Op.String()))
 		}
+		if isFloat(in.X.Type()) {
+			switch in.Op {
+			case token.EQL:
+				return b.FpCmp(OFpEq, xv, yt)
+			case token.NEQ:
+				return b.Not(b.FpCmp(OFpEq, xv, yt))
+			case token.LSS:
+				return b.FpCmp(OFpLt, xv, yt)
+			case token.LEQ:
+				return b.FpCmp(OFpLe, xv, yt)
+			case token.GTR:
+				return b.FpCmp(OFpLt, yt, xv)
+			case token.GEQ:
+				return b.FpCmp(OFpLe, yt, xv)
+			}
+			if xv.IsConst() && yt.IsConst() {
+				a, c := fpVal(xv.u, xv.sort.W), fpVal(yt.u, yt.sort.W)
+				var r float64
+				switch in.Op {
+				case token.ADD:
+					r = a + c
+				case token.SUB:
+					r = a - c
+				case token.MUL:
+					r = a * c
+				case token.QUO:
+					r = a / c
+				}
+				if xv.sort.W == 32 {
+					return b.BVu(uint64(math.Float32bits(float32(r))), 32)
+				}
+				return b.BVu(math.Float64bits(r), 64)
+			}
+			panic(unsupported("symbolic float arithmetic " + in.Op.String()))
+		}
 		sg := isSigned(in.X.Type())
 		w := xv.sort.W
 		switch in.Op {
 		case token.SHL, token.SHR:
-			// normalise shift count to width w
 			cnt := yt
 			var big *Term // cnt >= w
 			if cnt.sort.W > w {
@@ -802,45 +1241,54 @@ func (e *Engine) binop(f *frame, in *ssa.BinOp) Value {
 				cnt = b.Extract(cnt, w-1, 0)
 			} else {
 				cnt = b.ZExt(cnt, w)
-				big = b.Bool(false)
+				big = b.Not(b.Bin(OBvULT, cnt, b.BVu(uint64(w), w)))
 			}
 			if isSigned(in.Y.Type()) {
 				neg := b.Bin(OBvSLT, yt, b.BVu(0, yt.sort.W))
 				e.x.checkPanic(neg, f.fn, in, "negative shift amount")
 			}
-			var r *Term
 			switch {
 			case in.Op == token.SHL:
-				r = b.Ite(big, b.BVu(0, w), b.Bin(OBvShl, xv, cnt))
+				return b.Ite(big, b.BVu(0, w), b.Bin(OBvShl, xv, cnt))
 			case sg:
-				r = b.Ite(big, b.Bin(OBvAShr, xv, b.BVu(uint64(w-1), w)), b.Bin(OBvAShr, xv, cnt))
+				return b.Ite(big, b.Bin(OBvAShr, xv, b.BVu(uint64(w-1), w)), b.Bin(OBvAShr, xv, cnt))
 			default:
-				r = b.Ite(big, b.BVu(0, w), b.Bin(OBvLShr, xv, cnt))
+				return b.Ite(big, b.BVu(0, w), b.Bin(OBvLShr, xv, cnt))
 			}
-			return r
-		}
-		ops := map[token.Token][2]Op{
-			token.ADD: {OBvAdd, OBvAdd}, token.SUB: {OBvSub, OBvSub}, token.MUL: {OBvMul, OBvMul},
-			token.QUO: {OBvUDiv, OBvSDiv}, token.REM: {OBvURem, OBvSRem},
-			token.AND: {OBvAnd, OBvAnd}, token.OR: {OBvOr, OBvOr}, token.XOR: {OBvXor, OBvXor},
-			token.LSS: {OBvULT, OBvSLT}, token.LEQ: {OBvULE, OBvSLE},
 		}
 		si := 0
 		if sg {
 			si = 1
 		}
 		switch in.Op {
-		case token.QUO, token.REM:
+		case token.QUO:
 			e.x.checkPanic(b.Eq(yt, b.BVu(0, w)), f.fn, in, "integer divide by zero")
-			return b.Bin(ops[in.Op][si], xv, yt)
-		case token.ADD, token.SUB, token.MUL, token.AND, token.OR, token.XOR, token.LSS, token.LEQ:
-			return b.Bin(ops[in.Op][si], xv, yt)
+			return b.Bin([2]Op{OBvUDiv, OBvSDiv}[si], xv, yt)
+		case token.REM:
+			e.x.checkPanic(b.Eq(yt, b.BVu(0, w)), f.fn, in, "integer divide by zero")
+			return b.Bin([2]Op{OBvURem, OBvSRem}[si], xv, yt)
+		case token.ADD:
+			return b.Bin(OBvAdd, xv, yt)
+		case token.SUB:
+			return b.Bin(OBvSub, xv, yt)
+		case token.MUL:
+			return b.Bin(OBvMul, xv, yt)
+		case token.AND:
+			return b.Bin(OBvAnd, xv, yt)
+		case token.OR:
+			return b.Bin(OBvOr, xv, yt)
+		case token.XOR:
+			return b.Bin(OBvXor, xv, yt)
+		case token.LSS:
+			return b.Bin([2]Op{OBvULT, OBvSLT}[si], xv, yt)
+		case token.LEQ:
+			return b.Bin([2]Op{OBvULE, OBvSLE}[si], xv, yt)
 		case token.AND_NOT:
 			return b.Bin(OBvAnd, xv, b.BvNot(yt))
 		case token.GTR:
-			return b.Bin(ops[token.LSS][si], yt, xv)
+			return b.Bin([2]Op{OBvULT, OBvSLT}[si], yt, xv)
 		case token.GEQ:
-			return b.Bin(ops[token.LEQ][si], yt, xv)
+			return b.Bin([2]Op{OBvULE, OBvSLE}[si], yt, xv)
 		case token.EQL:
 			return b.Eq(xv, yt)
 		case token.NEQ:
@@ -854,9 +1302,9 @@ func (e *Engine) binop(f *frame, in *ssa.BinOp) Value {
 		case token.EQL, token.NEQ:
 			var r *Term
 			if len(xv.b) != len(yv.b) {
-				r = b.Bool(false)
+				r = b.ff
 			} else {
-				r = b.Bool(true)
+				r = b.tt
 				for i := range xv.b {
 					r = b.And(r, b.Eq(xv.b[i], yv.b[i]))
 				}
@@ -865,6 +1313,14 @@ func (e *Engine) binop(f *frame, in *ssa.BinOp) Value {
 				r = b.Not(r)
 			}
 			return r
+		case token.LSS:
+			return e.strLess(xv, yv, false)
+		case token.LEQ:
+			return e.strLess(xv, yv, true)
+		case token.GTR:
+			return e.strLess(yv, xv, false)
+		case token.GEQ:
+			return e.strLess(yv, xv, true)
 		}
 	case *Ptr:
 		yv := y.(*Ptr)
@@ -875,29 +1331,19 @@ func (e *Engine) binop(f *frame, in *ssa.BinOp) Value {
 		return b.Bool(eq)
 	case *Iface:
 		yv := y.(*Iface)
-		eq := false
+		var r *Term
 		if xv.t == nil || yv.t == nil {
-			eq = xv.t == nil && yv.t == nil
-		} else if types.Identical(xv.t, yv.t) {
-			switch a := xv.v.(type) {
-			case *Ptr:
-				eq = a.s == yv.v.(*Ptr).s
-			case *Term:
-				t := b.Eq(a, yv.v.(*Term))
-				if in.Op == token.NEQ {
-					t = b.Not(t)
-				}
-				return t
-			default:
-				panic(unsupported("interface compare of " + xv.t.String()))
-			}
+			r = b.Bool(xv.t == nil && yv.t == nil)
+		} else if !types.Identical(xv.t, yv.t) {
+			r = b.ff
+		} else {
+			r = e.valEq(xv.v, yv.v, xv.t)
 		}
 		if in.Op == token.NEQ {
-			eq = !eq
+			r = b.Not(r)
 		}
-		return b.Bool(eq)
+		return r
 	case *SliceV:
-		// only comparison with nil
 		yv := y.(*SliceV)
 		eq := xv.arr == nil && yv.arr == nil
 		if in.Op == token.NEQ {
@@ -917,6 +1363,68 @@ func (e *Engine) binop(f *frame, in *ssa.BinOp) Value {
 			eq = !eq
 		}
 		return b.Bool(eq)
+	case *StructV:
+		r := e.valEq(xv, y, in.X.Type())
+		if in.Op == token.NEQ {
+			r = b.Not(r)
+		}
+		return r
+	case *ArrayV:
+		r := e.valEq(xv, y, in.X.Type())
+		if in.Op == token.NEQ {
+			r = b.Not(r)
+		}
+		return r
 	}
 	panic(unsupported(fmt.Sprintf("binop %s on %T (%s)", in.Op, x, strings.TrimSpace(in.String()))))
+}
+
+// valEq is Go's == on comparable values.
+func (e *Engine) valEq(x, y Value, t types.Type) *Term {
+	b := e.b
+	switch a := x.(type) {
+	case *Term:
+		if isFloat(t) {
+			return b.FpCmp(OFpEq, a, y.(*Term))
+		}
+		return b.Eq(a, y.(*Term))
+	case *Ptr:
+		return b.Bool(a.s == y.(*Ptr).s)
+	case *StrV:
+		c := y.(*StrV)
+		if len(a.b) != len(c.b) {
+			return b.ff
+		}
+		r := b.tt
+		for i := range a.b {
+			r = b.And(r, b.Eq(a.b[i], c.b[i]))
+		}
+		return r
+	case *StructV:
+		c := y.(*StructV)
+		st := t.Underlying().(*types.Struct)
+		r := b.tt
+		for i := range a.f {
+			r = b.And(r, e.valEq(a.f[i], c.f[i], st.Field(i).Type()))
+		}
+		return r
+	case *ArrayV:
+		c := y.(*ArrayV)
+		at := t.Underlying().(*types.Array)
+		r := b.tt
+		for i := range a.e {
+			r = b.And(r, e.valEq(a.e[i], c.e[i], at.Elem()))
+		}
+		return r
+	case *Iface:
+		c := y.(*Iface)
+		if a.t == nil || c.t == nil {
+			return b.Bool(a.t == nil && c.t == nil)
+		}
+		if !types.Identical(a.t, c.t) {
+			return b.ff
+		}
+		return e.valEq(a.v, c.v, a.t)
+	}
+	panic(unsupported(fmt.Sprintf("== on %T", x)))
 }
